@@ -89,6 +89,7 @@ func checkC06(w *World, r *Report, tier string) propMeta {
 	c06R2(w, r)
 	c06AbortFileWriter(w, r)
 	c06R4(w, r)
+	c06R5(w, r)
 	return propMeta{
 		explanation: "Truthfulness of acknowledgements as path rules: every nil answer is an empty batch, an ack-only flush, or follows writer.Close-ok then MetaStore.Update-ok for the file created on that path; every error answer is provably non-nil; every failure exit after CreateFile passes the abort/tombstone cleanup before answering; abortFileWriter disposes of the writer and tombstones the pointer on every path; processIngestRequest validates (marshal, size) before it mutates any shared buffer. C06.R5 (publish order inside renameOnCloseFile.Close) is decided under C15.R1.",
 		notDecided:  "'visible exactly once on a fresh engine' (needs execution); MetaStore atomicity is an assumption of the property (checked for the shipped stores under C14).",
